@@ -292,6 +292,21 @@ def _memory2():
     return m
 
 
+def _memory_neg():
+    """a memory (write port, transparent and plain synchronous read ports) and a register in a domain clocked on the FALLING edge"""
+    from amaranth.hdl import Module, ClockDomain, Signal
+    from amaranth.lib.memory import Memory
+    m = Module()
+    m.domains.sync = ClockDomain(clk_edge="neg")
+    mem = m.submodules.mem = Memory(shape=3, depth=2, init=[1, 2])
+    w0 = mem.write_port()
+    mem.read_port(transparent_for=(w0,))
+    mem.read_port()
+    r = Signal(2, name="r", init=1)
+    m.d.sync += r.eq(r + 1)
+    return m
+
+
 def _hier(k):
     from checks import c04
     return c04._hier_designs()[k]()[0]
@@ -308,6 +323,7 @@ def designs(tier):
         ("crc.Processor", _crc, None, False),
         ("Memory", _memory, None, False),
         ("Memory2", _memory2, None, False),
+        ("MemoryNeg", _memory_neg, None, False),
         ("SyncFIFO", lambda: fifo.SyncFIFO(width=2, depth=3), None, False),
         ("SyncFIFOBuffered", lambda: fifo.SyncFIFOBuffered(width=2, depth=3), None, False),
         ("hier0", lambda: _hier(0), None, False), ("hier1", lambda: _hier(1), None, False), ("hier3", lambda: _hier(3), None, False),
